@@ -106,7 +106,7 @@ func runRef(c *core.Ctx, ck *Check, specs []*refSpec) {
 			if sp.eco == "golang" {
 				pre = "v"
 			}
-			for _, s := range []string{"2.0.3", "1.0.7", "2.0.0", "1.1.5"} {
+			for _, s := range []string{"2.0.3", "1.0.7", "2.0.0", "1.1.5", "2", "2.5", "2.0", "1.5", "1"} {
 				if sp.domain(pre + s) {
 					p.Add(pre+s, seen)
 				}
@@ -114,7 +114,7 @@ func runRef(c *core.Ctx, ck *Check, specs []*refSpec) {
 			for ex := 8; ex <= 31; ex++ {
 				for d := int64(-1); d <= 1; d++ {
 					n := int64(1)<<ex + d
-					for _, s := range []string{"1." + strconv.FormatInt(n, 10) + ".5", "1.1." + strconv.FormatInt(n, 10)} {
+					for _, s := range []string{"1." + strconv.FormatInt(n, 10) + ".5", "1.1." + strconv.FormatInt(n, 10), "1." + strconv.FormatInt(n, 10)} {
 						if sp.domain(pre + s) {
 							p.Add(pre+s, seen)
 						}
